@@ -97,3 +97,20 @@ Proof.
   unfold s2. apply csteps_mutate; [|constructor; [apply Ck; now right|constructor]|vm_compute; split; apply Permutation_refl].
   unfold s1. apply csteps_mutate; [constructor|constructor; [apply Ck; now left|constructor]|vm_compute; split; apply Permutation_refl].
 Qed.
+
+(* ---------------------------------------------------------------- from start-up to restart, no hypothesis on the state *)
+
+(* start on a directory that holds `local` (or nothing), whatever its contents; any
+   interleaving of API calls; every persist done; restart on the directory: the new
+   process blocks exactly the names the old one blocked *)
+Lemma end_to_end_lemma wl l0 s :
+  let start := fun l => load_initial wl [] (match l with Some f => [f] | None => [] end) in
+  csteps (init (start l0) l0) s -> s_pending s = [] -> 0 < s_version s ->
+  forall q, bl_exists (start (s_local s)) q = bl_exists (s_mem s) q.
+Proof.
+  cbn zeta. intros St Hp Hv q.
+  assert (Hg : mem_good (load_initial wl [] (match l0 with Some f => [f] | None => [] end)))
+    by (apply load_initial_good; constructor).
+  destruct (converged_reload_equiv_lemma _ _ _ St Hg Hp Hv) as (file & Hl & H).
+  rewrite Hl. rewrite load_initial_local. rewrite load_initial_w in H. apply H.
+Qed.
